@@ -18,6 +18,7 @@ from .common import log
 
 NSYM = 49
 RECORD_COUNT = {"quick": 1500, "thorough": 12000}
+SIM_TRACES = 1500
 
 RULE_TEXT = (
     "spec->impl: TLC enumerates EVERY text of up to N symbols (N=3 quick, N=4 thorough) over 49 lexically significant "
@@ -29,7 +30,8 @@ RULE_TEXT = (
     "and error codes are compared with the rule, and the two lexers with each other (kinds, values, codes; `return` and "
     "per-byte E110 excepted). Second enumerated family (MC_LexPairs): every ordered pair of representative token spellings "
     "(80 quick / 173 thorough: every operator, keyword, type, identifier / integer / char / string spelling class incl. 128-bit "
-    "literals and all suffixes) joined by 8 separators (nothing, space, tab, LF, CRLF, comments, mixed). impl->spec: random token soups in random spellings/layouts (all token kinds, boundary "
+    "literals and all suffixes) joined by 8 separators (nothing, space, tab, LF, CRLF, comments, mixed). Thorough only: random texts of 5..12 symbols "
+    "by TLC simulation (sampled, not exhaustive). impl->spec: random token soups in random spellings/layouts (all token kinds, boundary "
     "integers, every escape form, CRLF/LF/mixed line ends, comments, a few illegal lexemes) and arbitrary bytes (delta "
     "only) are lexed by the real lexers and every recording is validated by TLC (Trace_Lex: the logged bytes are lexed "
     "again by PenneLex and every logged item must satisfy the next reference item). Non-trivial = distinct texts for "
@@ -159,6 +161,24 @@ def run_enumeration(rep, tier, tally):
                 absorb(r, "t%d" % c)
                 log("[tlc] MC_Lex thorough chunk %d/%d: %d states, %.1fs; %d texts compared so far, %d violations" %
                     (stats["runs"] - 1, NSYM, r.distinct, r.wall, tally.texts, len(rep.violations)))
+    if tier == "thorough":
+        # sampled beyond the exhaustive bound: TLC simulation, random texts of 5..12 symbols
+        cases, states, wall = lexlib.tlc_simulate("MC_Lex", "MC_Lex_sim.cfg", SIM_TRACES, seed, 6, 1700, "C14-mc-sim",
+                                                  env={"LEX_FIRST": "0"})
+        seen = set()
+        longer = []
+        for c in cases:
+            k = bytes(c["s"])
+            if c["n"] > 4 and k not in seen:
+                seen.add(k)
+                longer.append(c)
+        log("[tlc] MC_Lex -simulate: %d states checked, %d distinct texts of 5..12 symbols, %.1fs" % (states, len(longer), wall))
+        stats["generated"] += states
+        stats["distinct"] += len(longer)
+        stats["sim_texts"] = len(longer)
+        stats["runs"] += 1
+        if longer:
+            replay_cases(rep, tally, longer, "sim")
     # second family: every ordered pair of token spellings x separators
     cfg = "MC_LexPairs_%s.cfg" % tier
     r = common.tlc("MC_LexPairs", cfg, workers=8, timeout=1700, heap="6g", tag="C14-mc-pairs", keep_output=False)
@@ -363,6 +383,7 @@ def run(rep, tier, seed, selftest):
         "max_symbols": 3 if tier == "quick" else 4,
         "tlc_runs": stats["runs"],
         "token_pair_texts": stats.get("pair_texts", 0),
+        "simulated_longer_texts": stats.get("sim_texts", 0),
         "tiling_invariants_hold": stats["ok"],
         "violated_invariant": stats["violated"],
         "reference_kinds_seen": len(tally.kinds),
